@@ -471,15 +471,26 @@ def numpy_iadd_table():
 
 def extract(repo: Path) -> dict:
     info: dict = {}
+    loader = N.make_loader(repo)          # follows `from pyxel.x.y import _helper` (private helpers in other modules)
+    from .common import parse as _parse
+
+    def parse(repo, rel):                 # the tree knows its own module name (relative imports can be followed)
+        t = _parse(repo, rel)
+        parts = rel[:-3].split("/")
+        t._is_pkg = parts[-1] == "__init__"
+        t._modname = ".".join(parts[:-1] if t._is_pkg else parts)
+        return t
+
     # ---- ArrayBase
     tree = parse(repo, "pyxel/data_structure/array.py")
     base = find_class(tree, "ArrayBase")
+    base._home = tree                     # its helpers are read in the vocabulary of array.py
     base_tl = type_list_of(base, default=[], module=tree)
     base_inlined: set = set()
     det_inlined: set = set()
 
     def nz(fn, module, scopes, params=None, keep=()):
-        out = N.normalize(fn, module, scopes=scopes, keep=keep, params=params)
+        out = N.normalize(fn, module, scopes=scopes, keep=keep, params=params, loader=loader)
         if scopes and scopes[0] is base:
             base_inlined.update(out._inlined)          # helpers of ArrayBase whose body the tables now contain
         if scopes and scopes[0].name == "Detector":
@@ -535,7 +546,7 @@ def extract(repo: Path) -> dict:
         if over:
             fail(cls, f"{cname} redefines {sorted(over)}; the model takes these from ArrayBase")
         for n in cls.body:       # a followed (inlined) private helper of ArrayBase redefined by the subclass
-            if isinstance(n, ast.FunctionDef) and n.name in base_inlined and not N.is_message_only(n):
+            if isinstance(n, ast.FunctionDef) and n.name in base_inlined and not N.is_message_only(n, t, [cls, base], loader):
                 fail(n, f"{cname} redefines the helper {n.name} that ArrayBase's methods were read through")
         ini = find_func(t, "__init__", cname)
         if shape_of(nz(ini, t, [cls, base], ["self", "geo"])) not in (["super().__init__(shape=(geo.row, geo.col))"],
@@ -655,9 +666,10 @@ def extract(repo: Path) -> dict:
     # a followed private helper of Detector must not be redefined by a detector class (virtual dispatch)
     for rel, cname in (("pyxel/detectors/ccd/ccd.py", "CCD"), ("pyxel/detectors/cmos/cmos.py", "CMOS"),
                        ("pyxel/detectors/mkid/mkid.py", "MKID"), ("pyxel/detectors/apd/apd.py", "APD")):
-        sub = find_class(parse(repo, rel), cname)
+        subt = parse(repo, rel)
+        sub = find_class(subt, cname)
         for n in sub.body:
-            if isinstance(n, ast.FunctionDef) and n.name in det_inlined and not N.is_message_only(n):
+            if isinstance(n, ast.FunctionDef) and n.name in det_inlined and not N.is_message_only(n, subt, [sub], loader):
                 fail(n, f"{cname} redefines the helper {n.name} that Detector's methods were read through")
     return info
 
